@@ -53,9 +53,9 @@ CFG = {
         rule="distinct scenarios whose run completed with >=1 poll and >=1 search step (every target/constraint call and the final log judged)",
     ),
     "C02": dict(
-        profile=dict(name="c02", cons_p=1.0, reuse_arrays_p=0.15, pre_relaxed_p=0.2,  x0_w=[8, 1, 1, 0], x0_infeasible_p=0.1, x0_nearcons_p=0.12, x0_infeasible_near_p=0.12,
+        profile=dict(name="c02", cons_p=1.0, reuse_arrays_p=0.15, pre_relaxed_p=0.2, x0_w=[5, 1, 4, 0], x0_infeasible_p=0.1, x0_nearcons_p=0.12, x0_infeasible_near_p=0.12,
                      geom_w=[3, 3, 2, 3, 3, 1, 1, 1, 3], where_w=[3, 2, 2, 3, 1], noise_w=[4, 1, 2, 2],
-                     knobs=dict(n_search=0.5, force_poll_mesh=0.25)),
+                     knobs=dict(n_search=0.5, force_poll_mesh=0.25, search_grid_number=0.3)),
         n=dict(quick=128, thorough=4000),
         nontrivial=lambda r: (r["outcome"] == "completed" and r["n_polls"] >= 1 and r["n_calls"] >= 5) or
                              (r["outcome"] == "ctor_valueerror"),
@@ -99,7 +99,7 @@ CFG = {
         rule="distinct valid scenarios that were constructed and run to an outcome (completed or crashed)",
     ),
     "C13": dict(
-        profile=dict(name="c13", rare_knobs=0.25, gate_p=0.3, fam_w=[3, 1, 1, 1, 1, 0, 7], knobs=dict(max_iter=0.2, tol_mesh=0.5, complete_poll=0.3, search_size_locked=0.2,
+        profile=dict(name="c13", rare_knobs=0.25, gate_p=0.3, fam_w=[3, 1, 1, 1, 1, 0, 7], knobs=dict(max_iter=0.2, tol_mesh=0.5, complete_poll=0.3, search_size_locked=0.2, search_mesh_increment=0.2,
                                                                          accelerate_mesh=0.5, tol_stall_iters=0.3),
                      budget_kinds=["small", "mid", "mid", "large"], noise_w=[5, 1, 2, 2], cons_p=0.2),
         n=dict(quick=160, thorough=6000),
